@@ -328,9 +328,10 @@ def make_obligations(pid, tier):
         add(('other', 'delete_id'), 0, KINDS, 2, 3)
         add(('other', 'delete_id'), 1, KINDS, 2, 3)
         add(('other', 'delete_id'), 2, KINDS, 2, 3)
-        add(('other', 'delete_id'), 3, ['int', 'obj', 'new'], 1, 2)
+        add(('other',), 3, ['obj', 'new'], 1, 2)
+        add(('delete_id',), 3, ['int', 'new'], 1, 2)
         cases.append((pid, 'bind', (), 2, 3))
-        bound_txt = ('<= 2 arguments of all kinds: 2 table ids (one with 0..3 incarnations, one with exactly 1); 3 arguments of kinds int/obj/new: 1 table id, 0..2 incarnations')
+        bound_txt = ('<= 2 arguments of all kinds: 2 table ids (one with 0..3 incarnations, one with exactly 1); 3 arguments of kinds obj/new (int/new for delete_id): 1 table id, 0..2 incarnations')
     # heavy cases first
     cases.sort(key=lambda c: -len(c[2]))
     bounds = (bound_txt + '; table ids arbitrary integers in [2, 2^32), last incarnation alive or dead, server-range reuse explicit or implicit; '
